@@ -98,8 +98,8 @@ class Cond:
 
 
 class OpaqueS:
-    def __init__(self, tag=""):
-        self.tag = tag
+    def __init__(self, tag="", nonempty=False):
+        self.tag, self.nonempty = tag, nonempty      # nonempty: known to hold at least one character (literal text of a template)
 
     def __repr__(self):
         return f"OpaqueS({self.tag})"
@@ -142,6 +142,8 @@ class TS:
                 r = Or(r, to_z3(it.hi) > to_z3(it.lo))
             elif isinstance(it, Cond):
                 r = Or(r, And(it.c, it.ts.truth()))
+            elif isinstance(it, OpaqueS) and it.nonempty:
+                return True
             else:
                 raise Unsupported(f"truth of {it!r}")
         return r
@@ -210,7 +212,10 @@ def fmt_percent(template, args):
     if all(isinstance(a, (int, str, float)) for a in args):
         return template % args
     if re.search(r"%[0-9.#+\- ]*[xXofeEgGr]|%[0-9.#+\- ]+[dis]", template):
-        return TS([OpaqueS("formatted text")])        # a rendering whose exact text is irrelevant to terminal effects
+        # a rendering whose exact text is irrelevant to terminal effects; it is not empty if the template has literal text or a
+        # numeric conversion (which prints at least one digit)
+        lit = re.sub(r"%[0-9.#+\- ]*[a-zA-Z%]", "", template)
+        return TS([OpaqueS("formatted text", nonempty=bool(lit) or bool(re.search(r"%[0-9.#+\- ]*[xXodifeEgG]", template)))])
     out, pos, k = [], 0, 0
     for m in re.finditer(r"%(.)", template):
         out.append(template[pos:m.start()])
